@@ -67,12 +67,27 @@ func (w *world) ev(format string, a ...any) {
 // bubble runs f inside a synctest bubble and tears the world down afterwards
 // so that no goroutine is left blocked.
 func bubble(t *testing.T, f func(t *testing.T)) {
+	lastBubbleLeak = ""
 	if rtMode {
 		f(t)
 		return
 	}
+	defer func() {
+		// the bubble refuses to end while goroutines started inside it are still blocked: that is an
+		// observation about the scenario (something outlived the teardown), not a reason to lose the family
+		if p := recover(); p != nil {
+			if msg := fmt.Sprint(p); strings.Contains(msg, "blocked goroutines remain") {
+				lastBubbleLeak = msg
+				return
+			}
+			panic(p)
+		}
+	}()
 	synctest.Test(t, f)
 }
+
+// lastBubbleLeak is non-empty when the last bubble ended with goroutines left behind.
+var lastBubbleLeak string
 
 type attachSpec struct {
 	mode     string // "none" (nil), "server" (server options only), "opts"
